@@ -178,7 +178,7 @@ theorem tinv_step {cfg : Cfg} {ts ts' : TState} {a : TAction} (hI : TInv cfg ts)
               simp only [B]
               exact this
             · exact hI.b j cj tj hcj' htj
-        | emit _ _ | garbage _ | lookup _ | giveUp _ | drain _ | connClose _ =>
+        | emit _ _ | garbage _ | lookup _ | giveUp _ | drain _ | connClose _ | kaCas | kaAdd | kaTake _ | kaRelease _ =>
           simp only at hcalls
           constructor
           · simp [stamp, hcalls, hI.len]
